@@ -31,7 +31,8 @@ func TestRAC_C14(t *testing.T) {
 	rng := rand.New(rand.NewSource(res.Seed + 1414))
 	cfgs := []mapCfg{{Full: false, TotalRows: 63}, {Full: false, TotalRows: 0}, {Full: false, TotalRows: 3}}
 	n := 0
-	enumHistories(maxLeaves, maxBlocks, func(h racHistory) {
+	large := false // seeded larger histories: sampled subsets only
+	perState := func(h racHistory) {
 		w, ok := replayHistory(res, h, nil, false)
 		if !ok {
 			return
@@ -45,6 +46,19 @@ func TestRAC_C14(t *testing.T) {
 		lp := w.spec.LeafPositions(rows)
 		placed := w.spec.Placed(rows)
 		subs := subsetsOf(live, 5, rng, 12)
+		if large {
+			// small subsets (1..3 leaves) so that held and wanted targets sit in different trees and on different rows
+			subs = nil
+			for k := 0; k < 10; k++ {
+				var S []Hash
+				for _, x := range permuted(live, rng) {
+					if len(S) < 1+rng.Intn(3) {
+						S = append(S, x)
+					}
+				}
+				subs = append(subs, S)
+			}
+		}
 		for ai, A := range subs {
 			for bi, B := range subs {
 				if !res.thorough() && (ai*31+bi*17)%3 != 0 && len(subs) > 8 {
@@ -209,9 +223,19 @@ func TestRAC_C14(t *testing.T) {
 		if n%97 == 1 {
 			res.sample(map[string]interface{}{"history": h.String(), "live": len(live), "subset_pairs": len(subs) * len(subs)})
 		}
-	})
+	}
+	enumHistories(maxLeaves, maxBlocks, perState)
+	// seeded larger forests (up to ~40 leaves): leaves moved up by deletions, several trees, targets on different rows
+	large = true
+	nLarge := 60
+	if res.thorough() {
+		nLarge = 600
+	}
+	for k := 0; k < nLarge; k++ {
+		perState(randomHistory(rng, 2+rng.Intn(5), 9))
+	}
 	res.Exhaustive = !false
-	res.Rule = fmt.Sprintf("every reachable state of histories with <= %d leaves / <= %d blocks with >= 2 leaves; all pairs (A,B) of non-empty live subsets (quick: a third of the pairs when a state has more than 8 subsets), each in sorted and in seeded parallel-permuted order: AddProof, GetProofSubset(proof of A, targets of B), GetMissingPositions; plus partial MapPollard (from roots) with seeded cached/wanted subsets for GetMissingPositions + VerifyPartialProof. Oracle: specForest.CanonProofPositions / pathNodes. distinct = (state, A, B) triples", maxLeaves, maxBlocks)
+	res.Rule = fmt.Sprintf("every reachable state of histories with <= %d leaves / <= %d blocks with >= 2 leaves; all pairs (A,B) of non-empty live subsets (quick: a third of the pairs when a state has more than 8 subsets), each in sorted and in seeded parallel-permuted order: AddProof, GetProofSubset(proof of A, targets of B), GetMissingPositions; plus partial MapPollard (from roots) with seeded cached/wanted subsets for GetMissingPositions + VerifyPartialProof; plus the same clauses on seeded random histories of 2..6 blocks with up to 9 additions each (leaves moved up by deletions, several trees) with ten sampled subsets of 1..3 live leaves per state (sampled, not exhaustive). Oracle: specForest.CanonProofPositions / pathNodes. distinct = (state, A, B) triples", maxLeaves, maxBlocks)
 	res.Scope = fmt.Sprintf("states=%d", n)
 	res.write(t)
 }
